@@ -133,6 +133,12 @@ func (c *Conversation) processSMP(in tlv) (out tlv, complete bool, err error) {
 			return
 		}
 		if out, err = c.processSMP3(mpis); err != nil {
+			if err == smpFailureError {
+				// The comparison failed but the exchange is over (SMP4 is still sent):
+				// "in either case, set smpstate to SMPSTATE_EXPECT1".
+				c.smp.state = smpState1
+				c.smp.secret = nil
+			}
 			return
 		}
 		c.smp.state = smpState1
@@ -146,6 +152,9 @@ func (c *Conversation) processSMP(in tlv) (out tlv, complete bool, err error) {
 		}
 		if err = c.processSMP4(mpis); err != nil {
 			out = c.generateSMPAbort()
+			// "If any of the verifications fails, send a type 6 TLV (SMP abort) and
+			// set smpstate to SMPSTATE_EXPECT1."
+			c.resetSMP()
 			return
 		}
 		c.smp.state = smpState1
